@@ -20,7 +20,7 @@ RULE = (
 )
 ASSUMPTIONS = ["integer lattice dominance is exact in float64",
                "random float sets with a pair inside the 1e-9 band of a facet are skipped (counted)"]
-REQUIRE = {"quick": {"exhaustive_cases": 20000, "random_sets": 100, "naive_cases": 10000, "dup_cases": 3000}}
+REQUIRE = {"quick": {"exhaustive_cases": 20000, "random_sets": 100, "naive_cases": 10000, "dup_cases": 3000, "large_sets": 16}}
 TIMEOUT = {"quick": 900, "thorough": 5400}
 
 INT_W2 = [[[1, 0], [0, 1]], [[2, -1], [-1, 2]], [[1, 2], [2, 1]], [[1, 0], [0, 1], [1, 1]], [[3, -1], [-1, 3], [1, 0]]]
@@ -149,8 +149,28 @@ def random_sets(mon, rng, n_sets, maxn):
         check_case(mon, order, W, X, f"rand/{label}", exact=False, do_naive=(n <= 80))
 
 
+def large_sets(mon, rng, n_sets, shard_no):
+    """513-4500 vectors, many of them exact copies of optimal values spread over the whole index range: size thresholds of a
+    divide-and-conquer / chunked implementation only bite here (seeded/V08-pareto-set-split-merge-drops-duplicates)"""
+    for k in range(n_sets):
+        m = int(rng.choice([2, 2, 3]))
+        label, order = gen.random_order(rng, m, allow_Kgtm=bool(rng.random() < 0.3))
+        W = order.ordering_cone.W
+        n = int(rng.integers(513, 1200)) if (k + shard_no) % 3 else int(rng.integers(2049, 4500))
+        if rng.random() < 0.5:
+            X = rng.integers(0, int(rng.choice([4, 8, 30])), size=(n, m)).astype(float)  # lattice: every optimal value occurs many times
+        else:
+            X = rng.normal(size=(n, m))
+            src = rng.integers(n, size=n // 3)
+            dst = rng.integers(n, size=n // 3)
+            X[dst] = X[src]  # planted exact copies across the index range
+        mon.count("large_sets")
+        check_case(mon, order, W, X, f"large/{label}", exact=False, do_naive=False)
+
+
 def shard(mon, tier, rng, shard_no, nshards):
     exhaustive(mon, tier, shard_no, nshards)
+    large_sets(mon, rng, 2 if tier == "quick" else 30, shard_no)
     if tier == "quick":
         random_sets(mon, rng, 10, 120)
         random_sets(mon, rng, 1, 300)
